@@ -35,7 +35,7 @@ func c05(c *eng.Ctx, r *eng.Report) {
 	c05Verify(c, r)
 	c05HeaderCache(c, r)
 	c05HeadRecord(c, r)
-	batchResetAs(c, r, "R5.10", "service", 2)
+	batchResetAs(c, r, "R5.10", "service", 1)
 	c05HeaderCacheFollowsIndex(c, r)
 	c05MarkContent(c, r)
 	// the second half of R5.6: what UnMarkExecuted does with a removed block's transactions (shared with C17)
